@@ -42,6 +42,17 @@ HARNESSES = {
         "bounds": "buffers of 0..=24 symbolic bytes, unwind 26: no panic; a decoded entry consumes at least one byte; the reader stays inside the buffer",
         "timeout": 900, "thorough_only": True, "require_stubs": ["Stub: alloc :: fmt :: format"],
     },
+    # ---------------------------------------------------------------- C04
+    "c04_ipv4_entry_round_trip": {
+        "pkg": "rustybgp-packet", "target": "bgp::Nlri::encode (IPv4) / bgp::PeerCodec::decode_nlri", "complete": True,
+        "bounds": "none: every IPv4 address, prefix length 0..=32, ADD-PATH on/off, every path identifier; values 'obtained by decoding' (octets behind the prefix length are zero); loops bounded by the address width (unwind 6, unwinding assertions on)",
+        "timeout": 600,
+    },
+    "c04_ipv6_entry_round_trip": {
+        "pkg": "rustybgp-packet", "target": "bgp::Nlri::encode (IPv6) / bgp::PeerCodec::decode_nlri", "complete": True,
+        "bounds": "none: every IPv6 address, prefix length 0..=128, ADD-PATH on/off, every path identifier; values 'obtained by decoding'; loops bounded by the address width (unwind 18, unwinding assertions on)",
+        "timeout": 900, "thorough_only": True,
+    },
     # ---------------------------------------------------------------- C05
     "c05_canonical_flags_table": {
         "pkg": "rustybgp-packet", "target": "bgp::Attribute::canonical_flags", "complete": True,
